@@ -557,13 +557,47 @@ func famPlan(tr *Trace, scratch string, seed int64, tier string, workers int) M 
 		add("rand", pk, noglob, umask, pmt, tid, rt, es)
 	}
 
+	// (4) Validate: it reports an error iff the list cannot be planned for at least one registered packager - including
+	// the packagers for which only a format-specific entry type collides - and it does so on every call
+	nVal := 0
+	{
+		vl := [][]Entry{
+			{{Type: "file", Src: "s/f1", Dst: "/a/x"}, {Type: "ghost", Dst: "/a/x"}},                 // collides for rpm only
+			{{Type: "ghost", Dst: "/a/x"}, {Type: "file", Src: "s/f1", Dst: "/a/x"}},
+			{{Type: "doc", Src: "s/f1", Dst: "/a/doc"}, {Type: "symlink", Src: "tgt", Dst: "/a/doc"}}, // rpm only
+			{{Type: "file", Src: "s/f1", Dst: "/a/x", Tag: "apk"}, {Type: "file", Src: "s/f2.conf", Dst: "/a/x", Tag: "apk"}}, // apk only
+			{{Type: "file", Src: "s/f1", Dst: "/a/x", Tag: "ipk"}, {Type: "dir", Dst: "/a/x", Tag: "ipk"}},                    // ipk only
+			{{Type: "file", Src: "s/f1", Dst: "/a/x", Tag: "deb"}, {Type: "file", Src: "s/f2.conf", Dst: "/a/x", Tag: "rpm"}},  // nowhere
+			{{Type: "file", Src: "s/f1", Dst: "/a/x"}, {Type: "licence", Src: "s/f1", Dst: "/a/y"}},                           // nowhere
+			{{Type: "readme", Src: "s/f1", Dst: "/a/x"}, {Type: "ghost", Dst: "/a/x/below"}},                                  // rpm only: beneath a file
+			{{Type: "file", Src: "s/f1", Dst: "/a/x", Tag: "archlinux"}, {Type: "symlink", Src: "tgt", Dst: "/a/x", Tag: "archlinux"}},
+			{{Type: "file", Src: "s/nope", Dst: "/a/x", Tag: "rpm"}},                                                            // no match, rpm only
+			{{Type: "file", Src: "s/f1", Dst: "/a/x"}},
+		}
+		for _, es := range vl {
+			id++
+			nVal++
+			nerr := 0
+			const reps = 16
+			for r := 0; r < reps; r++ {
+				info := &nfpm.Info{Name: "x", Arch: "amd64", Version: "1.0.0"}
+				info.Contents = toContents(root, es)
+				info.Umask = 0o22
+				if nfpm.Validate(info) != nil {
+					nerr++
+				}
+			}
+			tr.Emit(id, []M{{"ev": "case", "id": id, "fam": "validate", "pk": "", "umask": 0o22, "noglob": false, "pmt": 0, "tree": treeM["MC"], "entries": entriesM(es)},
+				{"ev": "validate", "calls": reps, "errors": nerr}, {"ev": "endcase"}})
+		}
+	}
 	parallel(len(cases), workers, func(i int) { runPlanCase(tr, cases[i]) })
 	for _, pc := range cases {
 		if pc.Family == "rand" || pc.ID%97 == 0 {
 			tr.Index(pc.ID, M{"pk": pc.Pk, "umask": pc.Umask, "noglob": pc.NoGlob, "pmt": pc.Pmt, "tree": pc.TreeID, "entries": entriesM(pc.Entries), "fam": pc.Family})
 		}
 	}
-	return M{"cases": len(cases), "exhaustive_lists": nExh, "exhaustive_triples": nExh3, "spellings": nSpell, "globshapes": nGlobx, "fsowned": nFs, "case_pairs": nCase, "via_config": int(atomic.LoadInt64(&nViaConfig)), "random": nRand,
+	return M{"cases": len(cases), "exhaustive_lists": nExh, "exhaustive_triples": nExh3, "spellings": nSpell, "globshapes": nGlobx, "fsowned": nFs, "case_pairs": nCase, "validate_lists": nVal, "via_config": int(atomic.LoadInt64(&nViaConfig)), "random": nRand,
 		"options": len(opts), "maxlen": maxLen}
 }
 
